@@ -29,6 +29,17 @@ class InvalidODEException(GotranxError):
 
 
 @dataclass
+class ReservedNameError(GotranxError):
+    names: typing.Sequence[str]
+
+    def __str__(self) -> str:
+        return (
+            f"The names {sorted(self.names)!r} are used by the generated code itself "
+            "and cannot name a state, parameter or expression"
+        )
+
+
+@dataclass
 class StateNotFoundInComponent(GotranxError):
     state_name: str
     component_name: str
